@@ -59,7 +59,7 @@ C11_ChannelBound == \A c \in Chan : \A d \in Denom : credit[c][d] >= 0
 C11_HeldWriters == Step => \A d \in Denom :
   /\ held'[d] > held[d] => Ok /\ E.act \in {"transfer", "donate"} /\ E.args.denom = d /\ held'[d] = held[d] + E.args.amt
   /\ held'[d] < held[d] => Ok /\ E.act \in {"recv", "ack", "timeout"} /\ E.args.denom = d /\ held[d] - held'[d] = E.args.amt
-GoodPacket(e) == e.args.form = "ok" /\ e.args.ch \in Chan /\ e.args.denom \in Denom
+GoodPacket(e) == e.args.form = "ok" /\ e.args.ch \in Chan /\ e.args.denom \in Denom /\ e.args.to \in User
                    /\ e.args.amt <= chan[e.args.ch][e.args.denom].out
 C11_BadPacketReleasesNothing == Step /\ E.act = "recv" /\ ~GoodPacket(E) =>
   ack' # "ok" /\ chan' = chan /\ held' = held /\ ubal' = ubal
@@ -110,6 +110,11 @@ C12_LegacyMigrateRebases == Step /\ legacy /\ IsOk("migrate") =>
        /\ chan'[c][d].sent - chan[c][d].sent = chan'[c][d].out - chan[c][d].out
 
 \* ------------------------------------------------------------------ C18
+\* an accepted instantiate stores the configured default limit and the initial allow list as given
+\* (an entry without a limit stays without a limit, whatever the default is)
+C18_Init == E.act = "reset" /\ Ok /\ ~FromFixture /\ E.cfg.legacy = "none" =>
+  /\ defaultGas' = E.cfg.defaultGas
+  /\ allow' = IF Len(E.cfg.allow) = 0 THEN [listed |-> FALSE, gas |-> -1] ELSE [listed |-> TRUE, gas |-> E.cfg.allow[1].gas]
 C18_AllowMonotone == Step /\ ~legacy =>
   /\ allow.listed => allow'.listed /\ GasLeq(allow.gas, allow'.gas)
 C18_GovOnly == Step /\ ~legacy /\ (allow' # allow \/ admin' # admin) =>
